@@ -160,11 +160,18 @@ func runC18(c *Ctx) {
 		if s.RHS != nil {
 			val = u.C.Term(s.RHS)
 		}
-		ok := strings.HasPrefix(val, "uint64(") && strings.HasSuffix(val, ".MaxRaftID)")
-		// preceded in the same block by the increment
+		// the counter read is the counter of the object whose id map is written: X.RaftIDs[..] = uint64(X.MaxRaftID)
+		// (a copy of the replica info, e.g. a struct passed by value to a helper, has a counter of its own)
+		owner := ""
+		if ix, isIx := ast.Unparen(s.LHS).(*ast.IndexExpr); isIx {
+			owner = strings.TrimSuffix(u.C.Term(ix.X), ".RaftIDs")
+		}
+		ok := owner != "" && val == "uint64("+owner+".MaxRaftID)"
+		// preceded in the same block by the increment of that same counter
 		pre := false
 		for _, o := range u.Sites {
-			if o.Kind == flow.SStore && o.Field != nil && c.W.FieldNames[o.Field] == "cluster.PartitionReplicaInfo.MaxRaftID" && o.Block == s.Block && o.SameBlockBefore(s) {
+			if o.Kind == flow.SStore && o.Field != nil && c.W.FieldNames[o.Field] == "cluster.PartitionReplicaInfo.MaxRaftID" && o.Block == s.Block && o.SameBlockBefore(s) &&
+				u.C.Term(o.LHS) == owner+".MaxRaftID" {
 				pre = true
 			}
 		}
